@@ -58,6 +58,11 @@ func FlagPlumbing(prop string) func(sc *core.Scratch, ev *core.Evidence, rep *co
 			mk([]string{"-rm"}, func(q *gen.GenReq) {}),
 			mk([]string{"-rm", "-stub", "-fmt", "noop"}, func(q *gen.GenReq) { q.Stub, q.Fmt = true, "noop" }),
 			mk([]string{"-out", ""}, func(q *gen.GenReq) {}),
+			// boolean flags spelled with an explicit value (a templated go:generate line: -stub=$(STUB))
+			mk([]string{"-stub=false"}, func(q *gen.GenReq) {}),
+			mk([]string{"-with-resets=false", "-skip-ensure=0"}, func(q *gen.GenReq) {}),
+			mk([]string{"-stub=true", "-with-resets=F", "-rm=false"}, func(q *gen.GenReq) { q.Stub = true }),
+			mk([]string{"-skip-ensure=t", "-stub=0", "-with-resets=1"}, func(q *gen.GenReq) { q.SkipEnsure, q.WithResets = true, true }),
 			mk([]string{"-stub", "-skip-ensure", "-with-resets", "-pkg", "mocks", "-fmt", "noop"}, func(q *gen.GenReq) {
 				q.Stub, q.SkipEnsure, q.WithResets, q.PkgName, q.Fmt = true, true, true, "mocks", "noop"
 			}),
